@@ -106,7 +106,9 @@ int pthread_cond_timedwait(pthread_cond_t* c, pthread_mutex_t* m, const struct t
     ul(m); sched_yield(); lk(m); return 0;
   }
   perturb();
+  Ent* e = lookup(c, true); if (e) __atomic_fetch_add(&e->waiters, 1, __ATOMIC_RELAXED);
   int r = fn(c, m, ts);
+  if (e) __atomic_fetch_sub(&e->waiters, 1, __ATOMIC_RELAXED);
   perturb();
   return r;
 }
